@@ -110,7 +110,8 @@ Proof. exact legacy_refuted_cast_round. Qed.
 Print Assumptions C06_legacy_refuted_cast.
 
 Theorem C06_legacy_refuted_cast_missing_arm :
-  exists c, valid c /\ c_op c = Cast /\ run_with Legacy.cfg c = [-1; 0] /\ run c = [6; 5] /\
-            oracle c (run_with Legacy.cfg c) = false.
+  exists c, valid c /\ c_op c = Cast /\
+            run1 Legacy.cfg Cast (c_src c) (c_tgt c) 5 = [-1; 0] /\ run1 gen_cfg Cast (c_src c) (c_tgt c) 5 = [6; 5] /\
+            payloads c = [5] /\ oracle c (run_with Legacy.cfg c) = false.
 Proof. exact legacy_refuted_cast_missing. Qed.
 Print Assumptions C06_legacy_refuted_cast_missing_arm.
